@@ -346,6 +346,9 @@ def replay(case):
     k = case["kind"]
     if k == "fresh":
         return freshcmp.replay(case)
+    if k == "toy-reload":
+        from vf.checks import toyreload
+        return toyreload.replay(case, ("placement-after-reload",))
     if k == "word":
         part = encoding_shard((case["w"], case["w"] + 1))
     elif k == "ctor":
@@ -399,4 +402,6 @@ def run(ctx):
         if d:
             part.violation(dict(oracle="toy-assembler", field="example"), dict(kind="example", i=i), d, size=(i,))
     ctx.space("help-page-examples", part, t0)
+    from vf.checks import toyreload
+    toyreload.run_part(ctx, ("placement-after-reload",))
     ctx.require("opcode-above-12", "inline-label", "data-before-text", "forward-reference-possible", "loaded-after-a-rejected-program", "data-in-a-memory-of-another-size")
